@@ -79,6 +79,87 @@ CLAIMS["C07"] = {
     "ref": "DESIGN.md section 7 C07",
 }
 
+CLAIMS["C01"] = {
+    "text": "Three Coq theorems (Props/C01.v): for every octet string b (octets < 256, length < 2^62) each of the nine decode entry "
+            "points of the model returns DOk or DErr - never DPanic (every slice index, copy_from_slice, try_into().unwrap(), "
+            "offset addition and shift of the Rust code is a checked operation of the model and is shown to be in range: read "
+            "bounds, the 4/16-octet size guards, the cookie length classification, prefix/8 < size) and never DFuel (every loop "
+            "terminates: 320 steps per name, one octet of progress per iteration of every while-loop, counted section loops); "
+            "also for the readers as methods on any well-formed decoder state (sub-windows, non-zero offsets). Proved "
+            "compositionally over the decoder monad, for all 46 record types through the generated format tables. Tie: all "
+            "strings of length <= 2 on all nine entry points (exhaustive), guard inputs, structured/near-miss/byte-level streams "
+            "up to 65,538 octets, panic status compared with the model; every accepted value is cloned, compared, formatted, "
+            "queried and re-encoded by the harness under catch_unwind (debug build, overflow checks).",
+    "note": "Clone/PartialEq/Display/Debug, process aborts, stack overflow and allocation are runtime behaviour outside the model: exercised by the harness, not proved. Re-encode totality is C08_no_panic. " + NOTE_COMMON,
+    "technique": "Coq proof (compositional safety predicate over the decoder monad, fuel/progress arguments) + exhaustive short-input and structured differential correspondence",
+    "ref": "DESIGN.md section 7 C01",
+}
+CLAIMS["C08"] = {
+    "text": "Thirty-seven Coq theorems (Props/C08.v) with NO well-formedness hypothesis on the value: enc_Dns/enc_RR/enc_Question/"
+            "enc_Flags/enc_DomainName never panic for any value (length-slot subtraction, prefix loop shown in range); Ok output has "
+            "<= 65,535 octets; the four count fields equal the section lengths and are <= 65,535; every RDLENGTH, option length, "
+            "SvcParam length and APL address length equals the octets it covers (exact slot lemma) or the call fails with Length; a "
+            "character string > 255 octets, a section > 65,535 entries, an ECH list > 65,535, a pointer offset > 16383 each give "
+            "the corresponding error; the message is header ++ question blocks ++ record blocks of the stated shape; typed values "
+            "never hit the ill-typed branch (writer/reader tables agree, by vm_compute over the generated tables); output octets "
+            "< 256. The decodability clause is decided by the oracle (reference decoder on the implementation's bytes) with the "
+            "four known-finding classes KF4-KF7. Tie: E cases beyond every limit, byte-exact vs the model.",
+    "note": "'Ok means decodable to the same value' is checked on the implementation's output by the independent reference decoder (test), the theorem part covers limits, lengths, counts and absence of panics. Known findings KF4-KF7 (known_findings.json). " + NOTE_COMMON,
+    "technique": "Coq proof (buffer-extension predicate, length-slot combinator, table agreement by vm_compute) + byte-exact differential correspondence + reference-decoder oracle with known-finding classes",
+    "ref": "DESIGN.md section 7 C08",
+}
+CLAIMS["C14"] = {
+    "text": "Twenty-two Coq theorems (Props/C14.v): the only place where per-instance hash seeds could leak is the iteration of the "
+            "local HashMap in merge_domain_name_index; with the iteration order made a parameter perm (any permutation), the local "
+            "table always has pairwise distinct keys (suffixes of one name), permuting it yields a lookup-equivalent index, every "
+            "encoder primitive and writer respects lookup-equivalence, hence enc_Dns m = the encoder run with ANY iteration order, "
+            "for all messages (and any two orders agree); the decoder's visited set is used only through membership and size "
+            "(rec_loop invariant under permutation). Gallina functions are deterministic, the correspondence transfers that. "
+            "Tie: R cases - every E/D case repeated on 1, 4 and 16 threads sharing the input through an Arc, fresh RandomState "
+            "each call; result set must be the model's singleton and the input unchanged.",
+    "note": "Real thread interleavings are sampled by the harness, not enumerated; data-race freedom rests on Rust's Send/Sync rules (no static or interior-mutable state in non-test code: audited by grep in the check). " + NOTE_COMMON,
+    "technique": "Coq proof (index lookup-equivalence as a congruence of the encoder monad, permutation invariance) + repeated/concurrent differential runs",
+    "ref": "DESIGN.md section 7 C14",
+}
+CLAIMS["C15"] = {
+    "text": "Nine Coq theorems (Props/C15.v): for every TTL word < 2^32 the OPT reader accepts iff the 15 reserved bits are clear and "
+            "then returns extended RCODE = bits 31..24, version = bits 23..16, DO = bit 15; the writer is its inverse; a non-root "
+            "owner is rejected, the payload size is the CLASS word; cookie accepted iff 8 or 16..=40 octets (client = first 8), "
+            "server cookie 8..=32; padding accepted iff all octets zero (any length, zero included), value = length; ECS accepted "
+            "iff family 1/2, address octets <= size and no bit beyond max(source,scope) after zero-fill; every valid option and the "
+            "whole OPT record emit to octets that decode to the same value from any encoder state. Unbounded. Tie: D RR / E RR "
+            "cases (TTL octets 4x256 complete, cookie/padding lengths 0..64, ECS grid, option sequences, length deltas) compared "
+            "with the model and judged in both directions by the reference decoder.",
+    "note": "The ECS octet count on output (known finding KF2) belongs to C17. " + NOTE_COMMON,
+    "technique": "Coq proof (bit-level arithmetic on the TTL word, exact value domains, encode/decode round trip) + two-sided reference-decoder oracle",
+    "ref": "DESIGN.md section 7 C15",
+}
+CLAIMS["C16"] = {
+    "text": "Twenty-four Coq theorems (Props/C16.v): the BTreeSet model keeps keys strictly increasing and duplicate-free under "
+            "insert; the encoder's output for a parameter list is exactly the concatenation of key, length, registered value format "
+            "(write trace), so emitted keys are strictly increasing, the mandatory list is emitted sorted (Sorted + Permutation), "
+            "ech carries its two-octet length, alias form writes no parameters; each of the nine parameter kinds round-trips "
+            "through writer and reader with its value intact (lists of any length), whole parameter lists too; duplicates, wrong "
+            "port/hint/flag/ECH/alpn lengths, non-IN class and parameters behind an alias target are rejected with the stated "
+            "error. Tie: D RR / E RR cases over all wire orders/duplications of <= 3 parameters, length deltas, priorities, "
+            "classes; reference decoder in both directions; key order checked on the emitted bytes.",
+    "note": "PRIVATE with a registered key number (known finding KF6) is excluded by param_valid and recorded under C08. Unsorted/duplicated mandatory lists are accepted on input (not judged, DESIGN.md 8.3). " + NOTE_COMMON,
+    "technique": "Coq proof (sorted-set model, exact write trace, per-kind round trips, rejection lemmas) + two-sided reference-decoder oracle",
+    "ref": "DESIGN.md section 7 C16",
+}
+CLAIMS["C18"] = {
+    "text": "The pinned library violates C18 at all nine RDATA-name call sites (known findings KF1-RP .. KF1-SVCB, not repairable "
+            "without a second name writer; the suite pins the compressed SVCB target). Four Coq theorems (Props/C18.v): every name "
+            "position of the generated writer tables is classified (eleven RFC 1035 types / eight later types / SVCB+HTTPS; no "
+            "position outside the lists); the property is REFUTED by a machine-checked witness per site (a pointer inside the RDATA "
+            "name of RP x2, AFSDB, RT, PX x2, KX, SRV, DNAME, LP, SVCB, HTTPS); a literal writer provably emits no pointer. The "
+            "check prints one KNOWN-FINDING line per site and reports any pointer inside an RDATA name that is not attributable "
+            "to a recorded site, or any disagreement with the model, as a violation.",
+    "note": "Decided as 'violated, nine known findings'; the check's role is to keep the findings exact and to flag new ones. " + NOTE_COMMON,
+    "technique": "Coq refutation witnesses (vm_compute) + table classification + reference-decoder pointer trace on the implementation's bytes",
+    "ref": "DESIGN.md section 7 C18",
+}
+
 REASON_PENDING = "check not built yet (work in progress; see DESIGN.md section 10)"
 
 
